@@ -29,6 +29,7 @@ type traceEvent struct {
 	Eff     []Fault `json:"eff"` // the faults that changed the forwarded bytes
 	Outcome string  `json:"outcome"`
 	Bound   bool    `json:"bound"`
+	SameKey bool    `json:"samekey"`
 	Wire    bool    `json:"wire"` // the request on the wire was the normal form of the arguments
 	Note    string  `json:"note"` // slug of the panic message, if any (not read by the spec)
 }
@@ -120,6 +121,7 @@ func runCases(t *testing.T, in replayIn, res *hx.Result, tw *hx.TraceWriter) {
 	e := newEnv(t)
 	sampled := map[string]bool{}
 	for _, c := range in.Cases {
+		e.tc = e.transport(c.SameKey)
 		s, err := e.newSession(c)
 		if err != nil {
 			t.Fatal(err)
@@ -179,7 +181,7 @@ func runCases(t *testing.T, in replayIn, res *hx.Result, tw *hx.TraceWriter) {
 			res.Count("abstract_client_differs", 1)
 		}
 		if tw != nil {
-			ev := traceEvent{Op: "Case", RPC: c.RPC, Variant: c.Variant, Faults: c.Faults, Eff: eff, Outcome: o.Outcome, Bound: o.Bound, Wire: o.Wire}
+			ev := traceEvent{Op: "Case", RPC: c.RPC, Variant: c.Variant, Faults: c.Faults, Eff: eff, Outcome: o.Outcome, Bound: o.Bound, Wire: o.Wire, SameKey: c.SameKey}
 			if o.Outcome == "panic" {
 				ev.Note = slug(o.Err)
 			}
